@@ -132,6 +132,70 @@ Theorem C23_tree_bad_input_no_effect : forall mt um out content t ord1 ord2, val
 Proof. exact tree_bad_input_no_effect. Qed.
 Print Assumptions C23_tree_bad_input_no_effect.
 
+(* ================================================================== the property's wording, as corollaries *)
+
+(* "If any write fails, none of the snap's managed files remain (provided removal itself succeeds)": when nothing in the
+   directory is a non-empty directory, a failed change phase - whichever entry and whichever of its State() calls it is,
+   see C23_failure_points - leaves NO entry under the managed names *)
+Theorem C23_fail_closed_all_gone : forall mt um out d content, NoDup (names d) -> NoDup (names content) ->
+  (forall n v, lookup d n = Some v -> removable v = true) ->
+  r_wfail (ensure_dir_state mt um out d content) = true ->
+  forall n, mt n = true -> lookup (r_dir (ensure_dir_state mt um out d content)) n = None.
+Proof. exact fail_closed_all_gone. Qed.
+Print Assumptions C23_fail_closed_all_gone.
+
+(* permissions: a file that differs from the desired one ONLY in its permission bits is rewritten with the desired bits
+   (minus the umask) and reported changed; with equal bits and content it is left alone and not reported *)
+Theorem C23_mode_only_difference : forall mt um out d content n c m m' f, NoDup (names d) -> NoDup (names content) ->
+  r_err (ensure_dir_state mt um out d content) = false ->
+  lookup content n = Some (DReg c m f) -> lookup d n = Some (Reg c m') ->
+  (perm m <> perm m' ->
+     In n (r_changed (ensure_dir_state mt um out d content))
+     /\ lookup (r_dir (ensure_dir_state mt um out d content)) n = Some (Reg c (N.ldiff (perm m) um)))
+  /\ (perm m = perm m' ->
+     ~ In n (r_changed (ensure_dir_state mt um out d content))
+     /\ lookup (r_dir (ensure_dir_state mt um out d content)) n = Some (Reg c m')).
+Proof. exact mode_only_difference. Qed.
+Print Assumptions C23_mode_only_difference.
+
+(* tree, file by file: on success the files matching the globs in every visited directory are exactly the desired ones, every
+   other file of the tree is untouched *)
+Theorem C23_tree_success_files : forall mt um out content t ord1 ord2, NoDup ord1 -> WfC content -> (forall q, NoDup (names (foe t q))) ->
+  t_err (ensure_tree_state mt um out content t ord1 ord2) = false ->
+  forall q n,
+  (mt n = false -> file_at (t_tree (ensure_tree_state mt um out content t ord1 ord2)) q n = file_at t q n)
+  /\ (In q ord1 -> mt n = true ->
+      match lookup (content_of content q) n with
+      | None => file_at (t_tree (ensure_tree_state mt um out content t ord1 ord2)) q n = None
+      | Some ds => exists v, file_at (t_tree (ensure_tree_state mt um out content t ord1 ord2)) q n = Some v /\
+                   ((file_at t q n = Some v /\ in_state out (Some v) ds = true) \/
+                    (v = written um ds /\ in_state out (file_at t q n) ds = false))
+      end).
+Proof. exact tree_success_files. Qed.
+Print Assumptions C23_tree_success_files.
+
+(* tree: the reported lists are exact (paths = directory joined with the file name) and sorted *)
+Theorem C23_tree_lists_exact : forall mt um out content t ord1 ord2, NoDup ord1 -> WfC content -> (forall q, NoDup (names (foe t q))) ->
+  t_err (ensure_tree_state mt um out content t ord1 ord2) = false ->
+  (forall x, In x (t_changed (ensure_tree_state mt um out content t ord1 ord2)) <->
+     exists q n ds, In q ord1 /\ x = join q n /\ lookup (content_of content q) n = Some ds /\ in_state out (file_at t q n) ds = false)
+  /\ (forall x, In x (t_removed (ensure_tree_state mt um out content t ord1 ord2)) <->
+     exists q n, In q ord1 /\ x = join q n /\ mt n = true /\ lookup (content_of content q) n = None /\ file_at t q n <> None)
+  /\ StronglySorted le (t_changed (ensure_tree_state mt um out content t ord1 ord2))
+  /\ StronglySorted le (t_removed (ensure_tree_state mt um out content t ord1 ord2)).
+Proof. exact tree_lists_exact. Qed.
+Print Assumptions C23_tree_lists_exact.
+
+(* tree, every failure index: with only removable entries in the tree, the call fails (and then is fail closed,
+   C23_tree_fail_closed) exactly when SOME desired entry of SOME visited directory cannot be ensured *)
+Theorem C23_tree_failure_index : forall mt um out content t ord1 ord2, NoDup ord1 -> WfC content -> (forall q, NoDup (names (foe t q))) ->
+  (forall q n v, file_at t q n = Some v -> removable v = true) ->
+  valid_tree_input mt content = true ->
+  (t_err (ensure_tree_state mt um out content t ord1 ord2) = true <->
+   exists q n ds, In q ord1 /\ In (n, ds) (content_of content q) /\ efs um out (file_at t q n) ds = FErr).
+Proof. exact tree_failure_index. Qed.
+Print Assumptions C23_tree_failure_index.
+
 (* ------------------------------------------------------------------ non-vacuity: the hypotheses are met by concrete runs *)
 Local Open Scope string_scope.
 Definition ex_mt := match_any [bs "snap.foo.*"].
@@ -164,3 +228,19 @@ Example C23_ex_tree_success :
   t_err r = false /\ t_changed r = [bs "a/snap.foo.a"] /\ t_removed r = [bs "a/x/snap.foo.old"]
   /\ file_at (t_tree r) [bs "a"] (bs "snap.foo.a") = Some (Reg (bs "new") 420) /\ tlookup (t_tree r) [bs "a"; bs "x"] = None.
 Proof. vm_compute. repeat split. Qed.
+
+(* mode-only difference: same content, 0600 instead of 0644: rewritten and reported; an identical file is not *)
+Example C23_ex_mode_only :
+  let d := [(bs "snap.foo.a", Reg (bs "same") 384); (bs "snap.foo.b", Reg (bs "same") 420)] in
+  let r := ensure_dir_state ex_mt 18 [] d [(bs "snap.foo.a", DReg (bs "same") 420 0); (bs "snap.foo.b", DReg (bs "same") 420 0)] in
+  r_err r = false /\ r_changed r = [bs "snap.foo.a"] /\ r_removed r = []
+  /\ lookup (r_dir r) (bs "snap.foo.a") = Some (Reg (bs "same") 420).
+Proof. vm_compute. repeat split. Qed.
+(* every failing write index of a three-entry content: nothing managed is left, the unrelated file stays *)
+Example C23_ex_every_failure_index :
+  let d := [(bs "snap.foo.a", Reg (bs "o") 420); (bs "snap.bar.a", Reg (bs "u") 420)] in
+  let c k := [(bs "snap.foo.a", DReg (bs "n") 420 (if N.eqb k 0 then 3 else 0)); (bs "snap.foo.b", DReg (bs "n") 420 (if N.eqb k 1 then 3 else 0));
+              (bs "snap.foo.c", DSym (bs "t") (if N.eqb k 2 then 3 else 0))] in
+  forallb (fun k => let r := ensure_dir_state ex_mt 18 [] d (c k) in
+                    r_wfail r && is_nil_b (r_changed r) && names_eqb (names (r_dir r)) [bs "snap.bar.a"]) [0; 1; 2] = true.
+Proof. vm_compute. reflexivity. Qed.
